@@ -105,6 +105,10 @@ type EonSet struct {
 	PubShares []*shcrypto.EonPublicKeyShare
 	SecShares []*shcrypto.EonSecretKeyShare
 	Master    *big.Int // sum of the constant terms: the eon secret key
+
+	mu         sync.Mutex
+	shareCache map[string]*shcrypto.EpochSecretKeyShare
+	keyCache   map[string]*shcrypto.EpochSecretKey
 }
 
 var (
@@ -155,14 +159,39 @@ func (e *EonSet) Result(eon uint64, k int) *puredkg.Result {
 	}
 }
 
-// Share is keyper k's epoch secret key share for the identity.
+// Share is keyper k's epoch secret key share for the identity (cached).
 func (e *EonSet) Share(k int, id []byte) *shcrypto.EpochSecretKeyShare {
-	return shcrypto.ComputeEpochSecretKeyShare(e.SecShares[k], shcrypto.ComputeEpochID(id))
+	ck := fmt.Sprintf("%d|%x", k, id)
+	e.mu.Lock()
+	defer e.mu.Unlock()
+	if e.shareCache == nil {
+		e.shareCache = map[string]*shcrypto.EpochSecretKeyShare{}
+	}
+	if s, ok := e.shareCache[ck]; ok {
+		return s
+	}
+	s := shcrypto.ComputeEpochSecretKeyShare(e.SecShares[k], shcrypto.ComputeEpochID(id))
+	e.shareCache[ck] = s
+	return s
 }
 
 // Key is the epoch secret key computed directly from the master secret
 // (master * H1(identity)), independent of any share interpolation.
 func (e *EonSet) Key(id []byte) *shcrypto.EpochSecretKey {
+	e.mu.Lock()
+	defer e.mu.Unlock()
+	if e.keyCache == nil {
+		e.keyCache = map[string]*shcrypto.EpochSecretKey{}
+	}
+	if k, ok := e.keyCache[string(id)]; ok {
+		return k
+	}
+	k := e.key(id)
+	e.keyCache[string(id)] = k
+	return k
+}
+
+func (e *EonSet) key(id []byte) *shcrypto.EpochSecretKey {
 	s := shcrypto.EonSecretKeyShare(*new(big.Int).Set(e.Master))
 	sh := shcrypto.ComputeEpochSecretKeyShare(&s, shcrypto.ComputeEpochID(id))
 	return (*shcrypto.EpochSecretKey)(sh)
@@ -204,13 +233,13 @@ func NewPool(def db.Definition) *pgxpool.Pool {
 type EonState int
 
 const (
-	NoConfig   EonState = iota // no batch config row: receiver knows nothing about the set
-	ConfigOnly                 // batch config known, no eon started
-	Started                    // eon started, no DKG result
-	Failed                     // DKG result with success=false
-	Success                    // DKG result with success=true
-	Restarted                  // a first eon failed, a second eon was started and has no result yet
-	RestartedSuccess           // a first eon failed, the second succeeded
+	NoConfig         EonState = iota // no batch config row: receiver knows nothing about the set
+	ConfigOnly                       // batch config known, no eon started
+	Started                          // eon started, no DKG result
+	Failed                           // DKG result with success=false
+	Success                          // DKG result with success=true
+	Restarted                        // a first eon failed, a second eon was started and has no result yet
+	RestartedSuccess                 // a first eon failed, the second succeeded
 )
 
 func (s EonState) String() string {
@@ -308,6 +337,6 @@ type CoreConfig struct {
 	MaxKeys    uint64
 }
 
-func (c CoreConfig) GetAddress() common.Address       { return c.Address }
-func (c CoreConfig) GetInstanceID() uint64            { return c.InstanceID }
-func (c CoreConfig) GetMaxNumKeysPerMessage() uint64  { return c.MaxKeys }
+func (c CoreConfig) GetAddress() common.Address      { return c.Address }
+func (c CoreConfig) GetInstanceID() uint64           { return c.InstanceID }
+func (c CoreConfig) GetMaxNumKeysPerMessage() uint64 { return c.MaxKeys }
